@@ -25,33 +25,33 @@ Theorem C19_only_subscribers : forall sched s, run init sched = Some s ->
   forall id e, In (id, e) (delivered s) ->
   exists ca, nth_error (caches s) (e_cache e) = Some ca /\ cown ca = (id, e_topic e) /\
              forall m, In m (e_msgs e) -> In m (cacc ca) /\ In (id, e_topic e, m) (accepted s).
-Proof. exact only_subscribers. Qed.
+Proof. exact (only_subscribers false). Qed.
 Print Assumptions C19_only_subscribers.
 
 (* Per subscription: what the client was handed is a subsequence of what was accepted —
    never out of order, in every schedule (time-outs, unsubscribes and heartbeats included). *)
 Theorem C19_order_preserved : forall sched s, run init sched = Some s ->
   forall c ca, nth_error (caches s) c = Some ca -> Subseq (dmsgs c (delivered s)) (cacc ca).
-Proof. exact order_preserved. Qed.
+Proof. exact (order_preserved false). Qed.
 Print Assumptions C19_order_preserved.
 
 (* ... and never more often than it was accepted, in every schedule. *)
 Theorem C19_no_duplicates : forall sched s, run init sched = Some s ->
   forall c ca, nth_error (caches s) c = Some ca ->
   forall m, count_occ Z.eq_dec (dmsgs c (delivered s)) m <= count_occ Z.eq_dec (cacc ca) m.
-Proof. exact no_duplicates. Qed.
+Proof. exact (no_duplicates false). Qed.
 Print Assumptions C19_no_duplicates.
 
 Theorem C19_no_duplicates_distinct_payloads : forall sched s, run init sched = Some s ->
   forall c ca, nth_error (caches s) c = Some ca -> NoDup (cacc ca) -> NoDup (dmsgs c (delivered s)).
-Proof. exact no_duplicates_nodup. Qed.
+Proof. exact (no_duplicates_nodup false). Qed.
 Print Assumptions C19_no_duplicates_distinct_payloads.
 
 (* The topics of one poll result are pairwise distinct (the model's list is the Go map). *)
 Theorem C19_batch_topics_distinct : forall sched s, run init sched = Some s ->
   forall p pl b, nth_error (polls s) p = Some pl -> nth_error (chans s) p = Some (VBatch b) ->
   NoDup (map e_topic b).
-Proof. exact batch_topics_distinct. Qed.
+Proof. exact (batch_topics_distinct false). Qed.
 Print Assumptions C19_batch_topics_distinct.
 
 (* The full-strength property: in every schedule, for every subscription, what was handed to
@@ -111,6 +111,45 @@ Theorem C19_witness_has_one_hazard : run_avoiding hazard init witness = None /\
   run_avoiding hazard init (firstn 17 witness) <> None /\ run_avoiding hazard init (firstn 18 witness) = None.
 Proof. exact witness_hazard. Qed.
 Print Assumptions C19_witness_has_one_hazard.
+
+(* ---- the variant with the repaired message() (hooks/c19-fix-proposal.patch) ----
+   [init_fixed]: a poll whose timer has fired withdraws its responder from b.responders under
+   the map's lock (RemoveCb); if a publisher has taken it meanwhile, the poll waits for the
+   answer.  For this variant the full-strength property holds in EVERY schedule. *)
+
+Theorem C19_fixed_exactly_once_in_order : forall sched s, run init_fixed sched = Some s ->
+  forall c ca, nth_error (caches s) c = Some ca ->
+  dmsgs c (delivered s) = firstn (length (dmsgs c (delivered s))) (cacc ca) /\
+  Permutation (cacc ca) (dmsgs c (delivered s) ++ live s c ++ cmsgs ca).
+Proof. exact fixed_exactly_once_in_order. Qed.
+Print Assumptions C19_fixed_exactly_once_in_order.
+
+Theorem C19_fixed_quiescent : forall sched s, run init_fixed sched = Some s ->
+  forall c ca, nth_error (caches s) c = Some ca -> live s c = [] ->
+  cacc ca = dmsgs c (delivered s) ++ cmsgs ca.
+Proof. exact fixed_quiescent. Qed.
+Print Assumptions C19_fixed_quiescent.
+
+Theorem C19_fixed_never_hazardous : forall sched s, run init_fixed sched = Some s ->
+  run_avoiding hazard init_fixed sched = Some s.
+Proof. exact fixed_never_hazardous. Qed.
+Print Assumptions C19_fixed_never_hazardous.
+
+Theorem C19_fixed_only_subscribers : forall sched s, run init_fixed sched = Some s ->
+  forall id e, In (id, e) (delivered s) ->
+  exists ca, nth_error (caches s) (e_cache e) = Some ca /\ cown ca = (id, e_topic e) /\
+             forall m, In m (e_msgs e) -> In m (cacc ca) /\ In (id, e_topic e, m) (accepted s).
+Proof. exact (only_subscribers true). Qed.
+Print Assumptions C19_fixed_only_subscribers.
+
+(* the history of the finding, on the repaired variant: the message arrives with the next poll *)
+Theorem C19_fixed_witness_delivers :
+  exists s ca, run init_fixed witness_fixed = Some s /\
+    nth_error (caches s) 0 = Some ca /\ cacc ca = [42%Z] /\ pub_result s 2 = Some [(1, true)] /\
+    poll_result s 0 = Some RTimeout /\ poll_result s 1 = Some (RBatch [(7, 0, 0, [42%Z])]) /\
+    dmsgs 0 (delivered s) = [42%Z].
+Proof. exact witness_fixed_delivers. Qed.
+Print Assumptions C19_fixed_witness_delivers.
 
 (* ---- non-vacuity ---- *)
 
